@@ -216,6 +216,12 @@ func (b *NameBuilder) ToName() Name {
 	return Name(buf)
 }
 
+// maxNamePtrs is the number of compression pointers unpack follows in one
+// name. A name has at most 127 labels (255 octets), and Name.pack emits
+// data that needs at most one pointer per label, so every name this
+// package packs can also be unpacked by it.
+const maxNamePtrs = 127
+
 // copied and modified from dnsmessage
 // unpack unpacks a domain name.
 func (n *NameBuilder) unpack(msg []byte, off int) (int, error) {
@@ -266,7 +272,7 @@ Loop:
 				newOff = currOff
 			}
 			// Don't follow too many pointers, maybe there's a loop.
-			if ptr++; ptr > 10 {
+			if ptr++; ptr > maxNamePtrs {
 				return off, errTooManyPtr
 			}
 			currOff = (c^0xC0)<<8 | int(c1)
